@@ -51,5 +51,24 @@ def main() -> int:
         return run_one(prop, "quick", str(root))
 
 
+
+
+@contextlib.contextmanager
+def variant_from_patch(patch: Path, base: Path | None = None) -> Iterator[Path]:
+    """scratch copy of the sources with a unified diff applied (used for the seeded changes)"""
+    import subprocess
+
+    base = base or repo_root()
+    tmp = Path(tempfile.mkdtemp(prefix="vt-variant-"))
+    try:
+        shutil.copytree(base / PKG, tmp / PKG, ignore=shutil.ignore_patterns("__pycache__"))
+        r = subprocess.run(["patch", "-p1", "-s", "-d", str(tmp), "-i", str(patch)], capture_output=True, text=True)
+        if r.returncode != 0:
+            raise EditError(f"patch does not apply: {r.stdout} {r.stderr}")
+        yield tmp
+    finally:
+        shutil.rmtree(tmp, ignore_errors=True)
+
+
 if __name__ == "__main__":
     sys.exit(main())
